@@ -1,0 +1,71 @@
+//go:build verif
+
+package uasc
+
+import (
+	"encoding/json"
+	"fmt"
+	"os"
+	"sync"
+	"sync/atomic"
+)
+
+// When the environment variable VERIF_TRACE names a file pattern (a "%d" is
+// replaced by the process id), builds with -tags verif install a hook that
+// appends one JSON object per chunk-level event of every secure channel of
+// the process to that file. This lets the repository's own tests produce
+// traces that are validated against the specification.
+func init() {
+	pat := os.Getenv("VERIF_TRACE")
+	if pat == "" {
+		return
+	}
+	name := pat
+	if containsVerb(pat) {
+		name = fmt.Sprintf(pat, os.Getpid())
+	}
+	f, err := os.OpenFile(name, os.O_CREATE|os.O_WRONLY|os.O_APPEND, 0o644)
+	if err != nil {
+		return
+	}
+	var mu sync.Mutex
+	var n uint64
+	enc := json.NewEncoder(f)
+	VerifHook.Store(func(point string, s *SecureChannel, kv ...any) {
+		switch point {
+		case "chunk.write", "recv.chunk", "open.installed", "srv.opn.end", "open.copied":
+		default:
+			return
+		}
+		ev := map[string]any{"ev": point, "conn": s.c.ID(), "srv": s.kind == server, "ord": atomic.AddUint64(&n, 1)}
+		for i := 0; i+1 < len(kv); i += 2 {
+			k, _ := kv[i].(string)
+			switch v := kv[i+1].(type) {
+			case uint32, int, bool, string, uint64, int64:
+				ev[k] = v
+			case byte:
+				ev[k] = string(rune(v))
+			case *Message:
+				if v != nil && v.MessageHeader != nil && v.MessageHeader.Header != nil {
+					ev["type"] = v.MessageHeader.Header.MessageType
+				}
+			case *MessageChunk:
+				if v != nil && v.MessageHeader != nil && v.SymmetricSecurityHeader != nil {
+					ev["tok"] = v.SymmetricSecurityHeader.TokenID
+				}
+			}
+		}
+		mu.Lock()
+		enc.Encode(ev)
+		mu.Unlock()
+	})
+}
+
+func containsVerb(s string) bool {
+	for i := 0; i+1 < len(s); i++ {
+		if s[i] == '%' && s[i+1] == 'd' {
+			return true
+		}
+	}
+	return false
+}
